@@ -1578,6 +1578,8 @@ def check_C06(ctx):
     rng = random.Random(ctx.seed + 6)
     specials = [f for f in ep_pin_families() if legal_info(ctx, f)]
     specials = rng.sample(specials, min(len(specials), 12 if ctx.quick else 200))
+    # a checking double push whose only answers are en-passant captures (make must judge the capture without the pawn)
+    specials += list(ep_escape_positions(ctx, 4 if ctx.quick else 40))
     for fen in specials:
         ident = ' '.join(fen.split()[:4])
         so = run_search(ctx, 'fen ' + fen, 'depth=2 trace=full')
@@ -1957,11 +1959,52 @@ def heavy_mate_positions(ctx, n):
     return out
 
 
+def ep_escape_positions(ctx, n):
+    """a double pawn push gives check and the only legal replies are en-passant captures of that pawn: an engine whose
+    make-move judges the capture with the captured pawn still in place sees no reply and announces a mate that is none.
+    Yields the root (mover has the push; kind 'ep-escape-root') and the child (in check, e.p. only; 'ep-escape-child')."""
+    rng = random.Random(ctx.seed + 613)
+    out = {}
+    tries = 0
+    while len(out) < 2 * n and tries < 400 * n:
+        tries += 1
+        f = rng.randrange(8)
+        g = rng.choice([x for x in (f - 1, f + 1) if 0 <= x < 8])
+        k = rng.choice([x for x in (f - 1, f + 1) if 0 <= x < 8])
+        b = ['1'] * 64
+        b[48 + f] = 'P'; b[32 + g] = 'p'; b[24 + k] = 'k'
+        free = [q for q in range(64) if b[q] == '1' and q not in (40 + f, 32 + f)]
+        pieces = list(rng.choice(['KQR', 'KRRN', 'KQB', 'KQRN', 'KRRB', 'KQQ', 'KRBN', 'KQRp', 'KRRNp']))
+        sqs = rng.sample(free, len(pieces))
+        ok = True
+        for pc, sq in zip(pieces, sqs):
+            if pc in 'pP' and (sq < 8 or sq >= 56): ok = False
+            b[sq] = pc
+        if not ok: continue
+        root = board_to_rows(b) + ' w - - 0 1'
+        w = ctx.model.ask('oracle wf ' + root + ' ; ')
+        if not w or not w[0].startswith('wf 1 nk 1'): continue
+        c = list(b); c[48 + f] = '1'; c[32 + f] = 'P'
+        epsq = 'abcdefgh'[f] + '3'
+        child = board_to_rows(c) + f' b - {epsq} 0 1'
+        info = legal_info(ctx, child)
+        if not info or not info[2] or not info[0]: continue
+        if not all(mv.endswith(epsq) and mv[1] == '4' and mv[0] != epsq[0] for mv in info[0]): continue
+        ri = legal_info(ctx, root)
+        if not ri or ri[3] != 'no': continue
+        if rng.random() < 0.5:
+            root, child = color_mirror_fen(root), color_mirror_fen(child)
+        out[root] = 'ep-escape-root'
+        out[child] = 'ep-escape-child'
+    return out
+
+
 def check_C11(ctx):
     consts_compare(ctx, ['MATE_VALUE', 'MATE_BOUND', 'INFINITY', 'MAX_PLY'])
     mp = mate_positions(ctx, 70 if ctx.quick else 400)
     mp.update(small_endgames(ctx, 12 if ctx.quick else 60))
     mp.update(heavy_mate_positions(ctx, 10 if ctx.quick else 80))
+    mp.update(ep_escape_positions(ctx, 8 if ctx.quick else 60))
     for line in load_regressions('C11'):
         mp[line] = 'regression'
     for fen, kind in mp.items():
@@ -1983,6 +2026,10 @@ def check_C11(ctx):
                 m = INFO_RE.match(l)
                 if not m or not m.group(1).startswith('mate'): continue
                 N = int(m.group(1).split()[1])
+                if N == 0:
+                    ri = legal_info(ctx, fen)
+                    if ri and ri[0]:
+                        ctx.oracle_fail('mate-announcement-untrue', cmd, {'line': l, 'fen': fen, 'rules': 'mate 0 announced, but the position has legal moves'})
                 if N != 0 and abs(N) <= max_mate_n(fen):
                     o = ctx.model.ask(f'oracle mate {fen} ; {abs(N)}')
                     ok = (o[0].endswith('1]') if N > 0 else o[1].endswith('1]')) if len(o) >= 2 else False
